@@ -1482,16 +1482,31 @@ fn mul_helper_multi_zero_inclusive(
     {
         return Interval::make_unbounded(dt).unwrap();
     }
-    // Since unbounded cases are handled above, we can safely
-    // use the utility functions here to eliminate code duplication.
-    let lower = min_of_bounds(
-        &mul_bounds::<false>(dt, &lhs.lower, &rhs.upper),
-        &mul_bounds::<false>(dt, &rhs.lower, &lhs.upper),
+    // Since unbounded cases are handled above, a `NULL` endpoint product can
+    // only stem from an overflow: A negative overflow for the lower bound
+    // candidates (which are non-positive), and a positive overflow for the
+    // upper bound candidates (which are non-negative). In such cases, the
+    // corresponding bound must be unbounded. Note that we can not leave this
+    // to `min_of_bounds`/`max_of_bounds`, as they interpret a `NULL` as `INF`
+    // and `NEG_INF`, respectively, and would discard the overflowing product.
+    let lower_candidates = (
+        mul_bounds::<false>(dt, &lhs.lower, &rhs.upper),
+        mul_bounds::<false>(dt, &rhs.lower, &lhs.upper),
     );
-    let upper = max_of_bounds(
-        &mul_bounds::<true>(dt, &lhs.upper, &rhs.upper),
-        &mul_bounds::<true>(dt, &lhs.lower, &rhs.lower),
+    let lower = if lower_candidates.0.is_null() || lower_candidates.1.is_null() {
+        ScalarValue::try_from(dt).unwrap()
+    } else {
+        min_of_bounds(&lower_candidates.0, &lower_candidates.1)
+    };
+    let upper_candidates = (
+        mul_bounds::<true>(dt, &lhs.upper, &rhs.upper),
+        mul_bounds::<true>(dt, &lhs.lower, &rhs.lower),
     );
+    let upper = if upper_candidates.0.is_null() || upper_candidates.1.is_null() {
+        ScalarValue::try_from(dt).unwrap()
+    } else {
+        max_of_bounds(&upper_candidates.0, &upper_candidates.1)
+    };
     // There is no possibility to create an invalid interval.
     Interval::new(lower, upper)
 }
